@@ -197,6 +197,8 @@ class Contract:
         if self.qual and self.node is None:
             modname, path = self.qual.split(':')
             self.module, self.file, self.node, self.hash = find_def(modname, path)
+            from . import alpha
+            self.node, self.alpha_note = alpha.normalise(self.qual, self.node)
             check_decorators(self.node, self.qual)
         return self
 
